@@ -37,6 +37,7 @@ type Exec struct {
 	unsupported   []string
 	inSpec        bool
 	encCache      map[string]Term
+	siteNo        map[string]map[token.Pos]int
 	fieldTypeKey  map[string]string // heap key of a map-typed struct field -> type key of the field
 	inTypeInv     bool
 	boxedAddrs    map[string]VAddr
